@@ -59,6 +59,17 @@ INFO = {
  "C17-i": ("pod deletions and creations of one sync run in two goroutines sharing newStatus", "one sync with both deletions and creations", ""),
  "C18-i": ("searchPossibleConflict skips settings with an empty selector (getNodeList still treats it as everything)", "a setting with an empty nodeSelector next to another one", ""),
  "C20-i": ("defaults of the canary gauges hoisted out of the GenerateFunc closure", "families built once (as the controller does), an object with a canary rendered before one without", "MISSED -> the metrics stream builds the families once per process"),
+ # tenth wave (-j): prompt excluded memos and read fall-backs, suggested boundaries, arithmetic, unusual pod phases, several containers
+ "C01-j": ("a wildcard toleration (empty key, Exists) tolerates every taint whatever its effect", "template with an effect-restricted wildcard toleration + node tainted with the other effect", ""),
+ "C03-j": ("percentages resolved as ceil((p/100) * n) in floating point: overshoots by one when p*n/100 is an exact integer", "percentage maxUnavailable and a node count that is a multiple of 25 (7% of 100, 28% of 25, 14% of 50)", "MISSED (quick tier never had 25+ nodes) -> class of node counts 25 / 50 / 100 with percentages whose product is an exact integer; C03.holds"),
+ "C08-j": ("an outdated pod unscheduled for more than 10 minutes is appended to the clean-up list, which ignores pause / freeze", "pause or freeze + an old Pending outdated pod bound by affinity only", ""),
+ "C10-j": ("overwriteResourcesFromNode returns at the first undecodable node annotation", "two containers, malformed annotation for an earlier one, well-formed for a later one", ""),
+ "C12-j": ("pod labels built with labels.Merge(stamped, template): a template label overrides the stamped name label", "a template cloned from a pod of another ExtendedDaemonSet (carries its name label)", ""),
+ "C13-j": ("newReplicaSetFromInstance copies only labels, annotations and spec of the template (other ObjectMeta dropped, hash from the full template)", "template metadata with finalizers / ownerReferences", "MISSED -> templates with further ObjectMeta fields in eds_reconcile; clause C13.created-template-hashes-to-its-generation"),
+ "C14-j": ("scheduler-issue guard hoisted above desiredPods++ (stuck nodes drop out of status.desired)", "a daemon pod unscheduled for more than 10 minutes or terminating past its grace period", ""),
+ "C15-j": ("selectNodes guard `<` became `!=`: a list longer than requested gets every remaining fit node appended", "percentage replicas and nodes leaving during a canary, or replicas lowered", ""),
+ "C19-j": ("manual unpause applied once before the per-pod loop (its switch arm removed): an unpaused canary is re-paused by the auto-pause arm", "auto-paused canary with a lasting reason, then `canary unpause`", "MISSED (C19 did not run the stream that evaluates the canary) -> C19 runs manage_canary; C08.canary-resumes-on-unpause / C06.paused-iff"),
+ "C20-j": ("labels literally called name / namespace skipped from the keys but values still read by position", "a label called name or namespace plus one sorting after it", "MISSED -> name / namespace / Name in the label-key alphabet; C20.pairs"),
  "C19-h": ("rolling-update pause / freeze guard reads status.state == Canary instead of status.canary", "a paused canary (state Canary Paused) or a state string not yet refreshed", "MISSED -> the cli generator draws the state string independently of status.canary; C19.refuses-without-precondition"),
 }
 def main():
